@@ -1,10 +1,10 @@
 package main
 
 import (
-	"os"
 	"crypto/ecdsa"
 	"fmt"
 	"math/rand"
+	"os"
 	"sort"
 	"time"
 
